@@ -6,6 +6,7 @@ CONSTANTS
  MaxVar = 1
  MaxStr = 1
  Linear = FALSE
+ Stride = 1
  QKeySlashIsComment = TRUE
 INVARIANTS TypeOK GenRecAgree PrefixRejected SMAgree SMPrefix SMNoUnderflow SMChunks
 CHECK_DEADLOCK FALSE
